@@ -205,7 +205,75 @@ theorem catalog_ntest_mono_count (sizes : List ℕ) {n m : ℕ} (hnm : n ≤ m) 
     sizes.countP (fun k => decide (k ≤ n)) ≤ sizes.countP (fun k => decide (k ≤ m)) := by
   constructor <;> apply List.countP_mono_left <;> intro k _ hk <;> simp only [decide_eq_true_eq] at hk ⊢ <;> omega
 
+/-! ### array-valued scale factors; forecasts that filter on the fly -/
+
+/-- with an array-valued `scale` factor the total is Σ stored rate × its (broadcast) factor -/
+theorem array_scale_total (f : GFA ℝ) : f.eventCount = (List.zipWith (· * ·) f.base f.factors).sum := by
+  unfold GFA.eventCount GFA.data
+  rw [RealOps.real_sum]; rfl
+
+/-- a constant array factor is the scalar factor -/
+theorem array_scale_const (base : List ℝ) (c : ℝ) :
+    (⟨base, List.replicate base.length c⟩ : GFA ℝ).eventCount = (⟨base, c⟩ : GF ℝ).eventCount := by
+  rw [array_scale_total, gf_eventCount]
+  induction base with
+  | nil => simp
+  | cons a l ih =>
+    simp only [List.length_cons, List.replicate_succ, List.zipWith_cons_cons, List.sum_cons, ih]
+    ring
+
+/-- `number_test` after `forecast.scale(ndarray)`: the two tails of Poisson(Σ rate × factor), two NUMBERS -/
+theorem public_array_number_test_tails {ε : Type} (f : GFA ℝ) (events : List ε) :
+    let μ := (List.zipWith (· * ·) f.base f.factors).sum
+    let n := events.length
+    numberTestPubA f events = (∑' j, poisPmf μ (j + n), ∑ j ∈ range (n + 1), poisPmf μ j) := by
+  intro μ n
+  obtain ⟨h0, h1⟩ := eps_code_admissible
+  unfold numberTestPubA
+  rw [array_scale_total]
+  exact Prod.ext (delta1_eq_upper_tail μ n h0 h1) (delta2_eq_lower_tail μ n h0 h1)
+
+/-- the N-test on a forecast with `apply_filters` counts the FILTERED catalogs (the ones the forecast hands out) -/
+theorem cf_ntest_filtered {ε : Type} (keep : ε → Bool) (cats : List (List ε)) (obs : List ε) (h : cats ≠ []) :
+    (catalogNTestCF keep ⟨cats, true⟩ obs).1 =
+      (some (cats.countP (fun c => decide (obs.length ≤ (c.filter keep).length)), cats.length),
+       some (cats.countP (fun c => decide ((c.filter keep).length ≤ obs.length)), cats.length)) := by
+  unfold catalogNTestCF CF.pass
+  simp only [if_true]
+  have := catalog_public_eq (cats.map (List.filter keep)) obs (by simpa using h)
+  unfold catalogNTestPub at this
+  rw [this]
+  simp [List.countP_map, Function.comp_def]
+
+/-- ... and without `apply_filters` the catalogs as they are, whatever filters are configured -/
+theorem cf_ntest_unfiltered {ε : Type} (keep : ε → Bool) (cats : List (List ε)) (obs : List ε) :
+    (catalogNTestCF keep ⟨cats, false⟩ obs).1 = catalogNTestPub cats obs := by
+  simp [catalogNTestCF, CF.pass, catalogNTestPub]
+
+/-- a pass is idempotent: what the forecast hands out does not depend on how often it was iterated before -/
+theorem cf_pass_idempotent {ε : Type} (keep : ε → Bool) (f : CF ε) :
+    ((f.pass keep).2.pass keep).1 = (f.pass keep).1 := by
+  unfold CF.pass
+  cases f.applyFilters <;> simp [List.filter_filter]
+
+/-- history independence: the N-test as the FIRST pass over the forecast and the N-test after any number of earlier
+    full passes (other tests, get_event_counts, get_expected_rates, a for-loop) give the same result -/
+theorem cf_ntest_history {ε : Type} (keep : ε → Bool) (f : CF ε) (obs : List ε) (k : ℕ) :
+    (catalogNTestCF keep (CF.passes keep k f) obs).1 = (catalogNTestCF keep f obs).1 := by
+  induction k generalizing f with
+  | zero => rfl
+  | succ k ih =>
+    simp only [CF.passes]
+    rw [ih]
+    unfold catalogNTestCF
+    simp only [cf_pass_idempotent]
+
 -- non-vacuity
+example : (catalogNTestCF (fun m : ℕ => decide (5 ≤ m)) ⟨[[4, 6], [7, 7, 2], []], true⟩ [9]).1
+    = (some (2, 3), some (2, 3)) := by
+  rw [cf_ntest_filtered _ _ _ (by simp)]; decide
+example : (⟨[1, 2, 3], [1, (1 / 2 : ℝ), 0]⟩ : GFA ℝ).eventCount = 2 := by
+  rw [array_scale_total]; norm_num
 example : shiftF 0 = (-1, 0) ∧ shiftF 1 = (0, 1) ∧ shiftF 100000 = (99999, 100000) :=
   ⟨float_floor_shift 0 (by norm_num), float_floor_shift 1 (by norm_num), float_floor_shift 100000 (by norm_num)⟩
 example : ((GF.init [1, 2, (3 : ℝ)]).scaleAll [5, 1 / 2]).eventCount = 3 := by
